@@ -121,11 +121,15 @@ def main():
             mx = int(sys.argv[k + 1])
         if a == "--lines":
             lo, hi = (int(x) for x in sys.argv[k + 1].split("-"))
-    args = [a for a in args if not a.isdigit() and "-" not in a or a.endswith(".py")]
+    args = [a for a in args if a.endswith(".py")]
     for rel in args:
         src = open(os.path.join("/repo", rel)).read()
         packs = packs_reading(rel)
         muts = list(mutations(src, lo, hi))
+        for k, a in enumerate(sys.argv):
+            if a == "--ops":
+                want = sys.argv[k + 1].split(",")
+                muts = [m_ for m_ in muts if any(w in m_[1] for w in want)]
         if mx:
             muts = muts[:mx]
         print(f"{rel}: {len(muts)} mutants, packs {packs}", flush=True)
